@@ -135,7 +135,7 @@ macro_rules! convert_float_to_uint {
                 #[inline]
                 fn into_stimulus(self) -> $direct_target {
                     let max = $direct_target::max_intensity() as $float;
-                    let scaled = (self * max).min(max);
+                    let scaled = (self * max).min(max).max(0.0);
                     let f = scaled + f32::from_bits(C23);
                     (f.to_bits().saturating_sub(C23)) as $direct_target
                 }
@@ -148,7 +148,7 @@ macro_rules! convert_float_to_uint {
                     #[inline]
                     fn into_stimulus(self) -> $target {
                         let max = $target::max_intensity() as $temporary;
-                        let scaled = (self as $temporary * max).min(max);
+                        let scaled = (self as $temporary * max).min(max).max(0.0);
                         let f = scaled + f64::from_bits(C52);
                         (f.to_bits().saturating_sub(C52)) as  $target
                     }
@@ -167,9 +167,27 @@ macro_rules! convert_double_to_uint {
                 #[inline]
                 fn into_stimulus(self) -> $direct_target {
                     let max = $direct_target::max_intensity() as $double;
-                    let scaled = (self * max).min(max);
+                    let scaled = (self * max).min(max).max(0.0);
                     let f = scaled + f64::from_bits(C52);
                     (f.to_bits().saturating_sub(C52)) as $direct_target
+                }
+            }
+        )+
+    };
+}
+
+// Float to u64 and u128 conversion. Their max values are above 2^52, so the
+// magic number method doesn't work. The scaled value is rounded and cast
+// instead. The cast saturates and every value from 2^52 is already an integer.
+macro_rules! convert_float_to_wide_uint {
+    ($float: ident; ($($target: ident),+)) => {
+        $(
+            impl IntoStimulus<$target> for $float {
+                #[inline]
+                fn into_stimulus(self) -> $target {
+                    let max = $target::max_intensity() as f64;
+                    let scaled = (f64::from(self) * max).min(max).max(0.0);
+                    Round::round(scaled) as $target
                 }
             }
         )+
@@ -264,7 +282,8 @@ impl IntoStimulus<f64> for f32 {
         f64::from(self)
     }
 }
-convert_float_to_uint!(f32; direct (u8, u16); via f64 (u32, u64, u128););
+convert_float_to_uint!(f32; direct (u8, u16); via f64 (u32););
+convert_float_to_wide_uint!(f32; (u64, u128));
 
 impl IntoStimulus<f32> for f64 {
     #[inline]
@@ -272,7 +291,8 @@ impl IntoStimulus<f32> for f64 {
         self as f32
     }
 }
-convert_double_to_uint!(f64; direct (u8, u16, u32, u64, u128););
+convert_double_to_uint!(f64; direct (u8, u16, u32););
+convert_float_to_wide_uint!(f64; (u64, u128));
 
 convert_uint_to_larger_uint!(u8; next u16 (u32, u64, u128));
 
